@@ -2,6 +2,7 @@ import Mkdb.Props.C11
 import Mkdb.Proofs.Forest
 import Mkdb.Proofs.RefineScan
 import Mkdb.Proofs.RefineHistory
+import Mkdb.Proofs.RefineStmt
 /-!
 # C01 — table contents always equal what the statement history implies
 
@@ -228,5 +229,53 @@ theorem C01_heap_history_scan (ops : List HOp) (s : Store) (t : Levels)
       res.map (·.1) = live (runH (t, s.hdr.nextFree) ops).1 ∧
       Holds s'' (runH (t, s.hdr.nextFree) ops).1 :=
   heapRun_scan ops s t hH hI hok hdepth hlen
+
+end Mkdb.Store
+
+namespace Mkdb.Store
+open Mkdb.Tree Mkdb.Page Mkdb.Tuple Mkdb.Generated
+
+/-- **C01.statement_insert** (statement level, with the catalog): under the catalog invariant `Cat` - the
+page heap holds the page table, `sys_schema` and every user table as well-formed, pairwise disjoint
+trees; the live rows of the page table name exactly these tables with their current roots; every
+row id in the file is at most the row-id counter - `RelationService.Insert` on a known table with a
+row that encodes: finds the table through the catalog, gives the row the next row id and the next
+LSN, appends it to that table's tree (whatever splits that takes), leaves every other table and the
+schema catalog untouched, re-points the table's page-table row exactly when its root moved, logs
+the insert record and, then, the catalog record - and the catalog invariant holds again, so the
+theorem applies to the next statement. -/
+theorem C01_statement_insert (s : Store) (pt sch : Levels) (tbls : List (Bytes × Levels)) (h : Cat s pt sch tbls)
+    (table : Bytes) (t : Levels) (ht : (table, t) ∈ tbls) (cols : List String) (vals : List Val)
+    (schema : List FieldDef) (buf : Bytes) (hsch : schemaOf sch table = some schema)
+    (hcols : (colsOf schema cols).length = vals.length)
+    (henc : encodeTuple schema ((colsOf schema cols).zip vals).reverse = .ok buf)
+    (hlen : buf.length ≤ c_maxValueSize)
+    (t' : Levels) (nf' : Nat)
+    (hins : insertAppend t (s.hdr.lastKey + 1) s.hdr.nextLSN buf s.hdr.nextFree = .ok (t', nf'))
+    (hd' : t'.inner.length + 2 ≤ treeFuel) (hl' : t'.leaves.length ≤ scanFuel)
+    (hbig : (nf' : Int) ≤ 9223372036854775807) :
+    ∃ s' ptF logs, insert table cols vals s = .ok logs s' ∧
+      Cat s' ptF sch (setTable tbls table t') ∧
+      s'.hdr.lastKey = s.hdr.lastKey + 1 ∧ s'.hdr.nextFree = nf' ∧
+      ((rootOff t' = rootOff t ∧ ptF = pt ∧ s'.hdr.nextLSN = s.hdr.nextLSN + 1 ∧
+          logs = [⟨c_OpInsert, s.hdr.nextLSN, rootOff t, s.hdr.lastKey + 1, buf⟩]) ∨
+       (rootOff t' ≠ rootOff t ∧ s'.hdr.nextLSN = s.hdr.nextLSN + 2 ∧
+          ∃ k leafOff, ptF = setVal pt k (s.hdr.nextLSN + 1) (ptRow table (rootOff t')) ∧
+            logs = [⟨c_OpInsert, s.hdr.nextLSN, rootOff t, s.hdr.lastKey + 1, buf⟩,
+                    ⟨c_OpUpdate, s.hdr.nextLSN + 1, leafOff, k, ptRow table (rootOff t')⟩])) :=
+  insert_refines s pt sch tbls h table t ht cols vals schema buf hsch hcols henc hlen t' nf' hins hd' hl' hbig
+
+/-- **C01.statement_insert_row_appended**: ...and the table then reads as before plus the new row. -/
+theorem C01_statement_insert_row_appended (t t' : Levels) (key lsn nf nf' : Nat) (buf : Bytes)
+    (h : insertAppend t key lsn buf nf = .ok (t', nf')) : live t' = live t ++ [⟨key, false, buf⟩] :=
+  insert_live t t' key lsn nf nf' buf h
+
+/-- **C01.statement_unknown_table**: an INSERT into a table the catalog does not know is refused and
+changes nothing the engine can see. -/
+theorem C01_statement_unknown_table (s : Store) (pt sch : Levels) (tbls : List (Bytes × Levels)) (h : Cat s pt sch tbls)
+    (table : Bytes) (cols : List String) (vals : List Val)
+    (h1 : table ≠ sysPages) (h2 : table ≠ sysSchema) (h3 : table ∉ tbls.map (·.1)) :
+    ∃ s', insert table cols vals s = .err .tableNotExist s' ∧ Same s s' ∧ Cat s' pt sch tbls :=
+  insert_unknown_table s pt sch tbls h table cols vals h1 h2 h3
 
 end Mkdb.Store
